@@ -17,6 +17,10 @@ Definition items_of_event (e : event) : list item :=
   | EAckSent c t p r => [IAck c t p r]
   | EProcessed c => [IEnd c]
   | ESuperseded _ => []
+  (* the handling of a CONNECT ends with OnSessionEstablished (acknowledgements resent to a resumed
+     session before it belong to no request), a connection ends with OnDisconnect *)
+  | ESessionEstablished c => map IWrite (hook_awrites e) ++ [IEnd (cr_id (rc_rec c))]
+  | EDisconnect c _ => map IWrite (hook_awrites e) ++ [IEnd (cr_id (rc_rec c))]
   | _ => map IWrite (hook_awrites e)
   end.
 
